@@ -50,6 +50,12 @@ Definition facts (s : cst) (e : event) (s' : cst) : Prop :=
       c_q s' = c_q s /\ c_n s' = c_n s /\ cur_of (c_pc s') = None /\ cur_of (c_pc s) = None /\
       c_map s' = c_map s /\ c_last s <= t /\ c_last s' = t /\
       (nb_of (c_pc s') = Some (secs2beats (c_map s) t) \/ nb_of (c_pc s') = None)
+  | ESchedCall base d =>
+      c_q s' = c_q s /\ c_n s' = c_n s /\ cur_of (c_pc s') = cur_of (c_pc s) /\ c_map s' = c_map s /\
+      (nb_of (c_pc s') = nb_of (c_pc s) \/ nb_of (c_pc s') = None) /\
+      popt_of (c_pc s') = popt_of (c_pc s) /\
+      lock_free (c_pc s) = true /\ c_pend s = NoPend /\
+      c_pend s' = OweAdd (secs2beats (c_map s) base + d)
   | ENotify _ | EWaitBegin _ | EWaitEnd _ =>
       c_q s' = c_q s /\ c_n s' = c_n s /\ cur_of (c_pc s') = cur_of (c_pc s) /\ c_map s' = c_map s /\
       (nb_of (c_pc s') = nb_of (c_pc s) \/ nb_of (c_pc s') = None) /\
